@@ -55,6 +55,29 @@ def _task(args):
     outs = set()
     r = runner(state, proto)
     for raw in items:
+        if kind == 'script':
+            # a list of inputs on one fresh world; all output is checked
+            r.drop()
+            r.build()
+            for line in raw:
+                if r.w is None or r.v.done:
+                    break
+                res = r.run(line, label='script', keep=True)
+                n += 1
+                outs.add(_digest(res['out']))
+                _classify(res, line, 'script', out)
+                _stream_end(res, r, 'script', out, {'script': list(raw)})
+                pe = res['parse_error']
+                if PARSE_IS_VIOLATION and pe is not None \
+                        and pe.kind == 'grammar':
+                    out.append(Violation(
+                        'malformed-response', _ctx_site(res['out'], pe, res.get('base', 0)),
+                        f'[script] after {line!r:.100}: {pe} in '
+                        f'{res["out"]!r:.300}',
+                        replay={'script': list(raw)}))
+                    break
+            r.drop()
+            continue
         if kind == 'msg':
             # store the message, then hit it with every FETCH item / SEARCH key
             body = raw
@@ -83,7 +106,19 @@ def _task(args):
                 n += 1
                 _classify(res, b'msg=' + body[:60] + b'... ' + line,
                           'corpus-fetch', out)
+                _stream_end(res, r, 'corpus-fetch', out,
+                            {'msg': body, 'line': line})
                 outs.add(_digest(res['out']))
+                pe = res['parse_error']
+                if PARSE_IS_VIOLATION and pe is not None \
+                        and pe.kind == 'grammar':
+                    out.append(Violation(
+                        'malformed-response', _ctx_site(res['out'], pe, res.get('base', 0)),
+                        f'[corpus-fetch] msg={body!r:.80} {line!r}: {pe} in '
+                        f'{res["out"]!r:.300}',
+                        replay={'msg': body, 'line': line}))
+                    r.drop()
+                    break
                 if r.w is not None:
                     r.sig0 = r.signature()     # \Seen may have been set
             for k in E.SEARCH_KEYS:
@@ -104,20 +139,40 @@ def _task(args):
         kinds[res['kind']] = kinds.get(res['kind'], 0) + 1
         outs.add(_digest(res['out']))
         _classify(res, raw, f'{kind}/{proto}/{state}', out)
-        if PARSE_IS_VIOLATION:
+        if PARSE_IS_VIOLATION and proto == 'imap':
             pe = res['parse_error']
             if pe is not None and pe.kind == 'grammar':
                 out.append(Violation(
-                    'malformed-response', _ctx_site(res['out'], pe),
+                    'malformed-response', _ctx_site(res['out'], pe, res.get('base', 0)),
                     f'[{kind}] input {raw!r:.100}: {pe} in {res["out"]!r:.200}',
                     replay={'input': raw}))
                 r.drop()
     return out, n, kinds, len(outs)
 
 
-def _ctx_site(out, pe):
-    i = max(0, pe.offset - 0)
-    return pe.msg[:60]
+def _ctx_site(out, pe, base=0):
+    import re
+    # which response / fetch item was being written when parsing failed
+    off = pe.offset - base
+    upto = out[:max(0, off)] if 0 <= off <= len(out) else out
+    items = re.findall(rb'(ENVELOPE|BODYSTRUCTURE|BODY\[|BODY|BINARY|RFC822|'
+                       rb'FLAGS|LIST|LSUB|STATUS|SEARCH|ID|BAD|NO|OK)\b',
+                       out[-400:] if not upto else upto[-400:])
+    item = items[-1].decode() if items else '?'
+    return item + ':' + re.sub(r'\d+', 'N', pe.msg)[:60]
+
+
+def _stream_end(res, r, label, out, replay):
+    """C07: a connection's stream must not end inside a response."""
+    if not PARSE_IS_VIOLATION:
+        return
+    pe = res['parse_error']
+    if res['kind'] == 'closed' and pe is not None and pe.kind == 'incomplete':
+        sites = [s for rule, s, _ in res['problems'] if rule == 'serverbug']
+        out.append(Violation('stream-ends-inside-response',
+                             sites[0] if sites else 'unknown',
+                             f'[{label}] connection closed after '
+                             f'{res["out"][-80:]!r}', replay=replay))
 
 
 def chunks(seq, n):
@@ -209,6 +264,11 @@ def build_tasks(tier):
         E.bomb_messages()
     for ch in chunks(msgs, 6):
         T.append(('msg', 'selected', 'imap', ch))
+    # the C07 corpora (names, header values, MIME shapes, keywords)
+    from . import c07
+    for fam, scripts in c07.families(tier):
+        for ch in chunks(scripts, 40):
+            T.append(('script', 'selected', 'imap', ch))
     # the bad-command limit (default configuration)
     T.append(('limit', 'nonauth', 'imap', None))
     return T
@@ -240,7 +300,7 @@ def _dispatch(args):
 
 
 def run(*, tier, seed, jobs, progress, opts, prop=PROP, extra_tasks=None,
-        rule_text=None):
+        rule_text=None, keep_rules=None):
     t0 = time.perf_counter()
     tasks = build_tasks(tier) + (extra_tasks or [])
     tasks.sort(key=lambda t: _digest((seed, t[0], t[1], t[2],
@@ -263,6 +323,8 @@ def run(*, tier, seed, jobs, progress, opts, prop=PROP, extra_tasks=None,
                 print(f'  {k}/{len(tasks)} tasks, {total} inputs, '
                       f'{len(violations)} raw violations, '
                       f't={time.perf_counter() - t0:.0f}s', flush=True)
+    if keep_rules is not None:
+        violations = [v for v in violations if v['rule'] in keep_rules]
     for t in tasks:
         per_family[t[0]] = per_family.get(t[0], 0) + \
             (len(t[3]) if t[3] else 6)
